@@ -15,6 +15,7 @@
 
 """A context for the handling of a trigger."""
 
+import inspect
 import uuid
 from types import FrameType
 from typing import Dict, Optional, List
@@ -165,6 +166,13 @@ class TriggerContext:
         """
         local_names = dict(self.__frame.f_locals)
         names = dict(getattr(self.__frame, 'f_globals', {}))
+        # A name of the function hides the global of that name also while it is not bound (before its first
+        # assignment, after del, after the end of 'except ... as e'): the line would raise UnboundLocalError, it would
+        # not see the global - so the expression fails too, rather than report a value the function never looks at.
+        code = getattr(self.__frame, 'f_code', None)
+        if inspect.iscode(code) and code.co_flags & inspect.CO_OPTIMIZED:
+            for name in code.co_varnames + code.co_cellvars + code.co_freevars:
+                names.pop(name, None)
         names.update(local_names)
         return eval(expression, names, local_names)
 
